@@ -81,6 +81,7 @@ PROPS = {
             "text": "Lean 4 theorems over a model of bscript/script.go in which every Go index expression is an explicit partial lookup whose failure is the run-time panic: no inspection query (ScriptType, IsP2PK, IsMultiSigOut, IsP2PKHInscription, PublicKeyHash, ParseInscription) panics for any byte string; a script is typed P2PKH iff it is exactly the 25-byte template; typed data only with the OP_RETURN / OP_FALSE OP_RETURN prefix; undecodable scripts are never typed pubkey/multisig/inscription. The model is tied to the code by a differential check (all strings <= 2/3 bytes, every byte mutation / truncation / removal / part replacement incl. zero-length PUSHDATA of each standard template, through every query and json.Marshal(tx.NodeJSON())), whose predicate checks on the implementation's own answers that templates recognised by independent exact recognisers are reported as their type.",
             "note": "Trusted: Lean kernel + standard axioms, harness/generators/comparer, driver glue and the independent template recognisers of the predicate. 'Template instance is reported as its type' for P2PK/multisig/inscription is decided by the correspondence predicate, not yet by a theorem (partial for that clause).",
         },
+        "witness": [("GoBT.Script.IndexReviewLib", "GoBT.Script.unreviewed GoBT.Gen.IndexingBscript.sites GoBT.Script.indexReviewBscript GoBT.Script.reviewedSitesBscript")],
         "generators": ["C14", "FZ14"],
         "gen_obligations": ["index_sites_reviewed_bscript"],
         "thorough_seeds": 2,
@@ -133,6 +134,7 @@ PROPS = {
             "note": "Partial for memory: the allocation theorem is about a ghost model of bt.readBytes that is not tied by correspondence; the real allocator is only measured (TotalAlloc <= 64*len + 1 MiB per decode). encoding/json itself is modelled (shapes after decoding), not verified. Trusted: Lean kernel + standard axioms, harness/generators/comparer, driver glue.",
             "technique": "Lean 4 proof over hand-written model + differential correspondence check + measured allocation in isolated child processes",
         },
+        "witness": [("GoBT.Script.IndexReviewLib", "GoBT.Script.unreviewed GoBT.Gen.IndexingBt.sites GoBT.Script.indexReviewBt GoBT.Script.reviewedSitesBt")],
         "generators": ["C09", "FZ09", "FZ09c"],
         "thorough_seeds": 1,
         "gen_obligations": ["chunk_matches_source", "index_sites_reviewed_bt"],
@@ -254,6 +256,7 @@ PROPS = {
             "text": "The interpreter model is a total Lean function (structural recursion, so termination is kernel-checked) in which every Go run-time check is an explicit panic outcome. Main theorem execute_never_panics: for every crypto oracle, flag set, optional transaction context and pair of scripts, execute ends in accept or reject - no panic site of the model (transaction-requiring opcode without a transaction, element with a non-table length, empty saved stack of P2SH) is reachable; proved from the parser's guarantees (parseAux_Parsed), the invariant that the run-time conditional depth never exceeds the parser's nesting count (executeOpcode_depth, via per-handler lemmas for all opcodes), OP_RETURN at depth 0 ending the script (return_at_top_not_ok) and OP_HASH160 failing on an empty stack. Further theorems: step bound (one snapshot per instruction), shifts total for every operand and count. Tied to the code by a differential check of outcomes {ok, err, panic, crash} over arbitrary byte strings as both scripts, all single flags and flag pairs plus sampled 16-bit flag sets, eight kinds of transaction context (none, valid, tx without previous output, nil tx, nil input element, previous output without script, nothing, locking script only), indices -1 / len / 2^30, with and without a debugger, and memory-limited child processes for count-driven allocations.",
             "note": "The theorem is about the model's panic sites (the Go run-time checks the model makes explicit); that these are all the places the Go code can panic is what the correspondence checks (arbitrary byte strings, crash-isolated). Go run-time failures outside the modelled checks (stack exhaustion, memory exhaustion by OP_NUM2BIN to gigabytes) are exercised, not proved. Option validation before execution (nil tx, nil input, missing scripts) is checked by correspondence only. Trusted: Lean kernel + standard axioms, harness/generators/comparer, driver glue.",
         },
+        "witness": [("GoBT.Interp.IndexReview", "GoBT.Interp.unreviewedSites")],
         "generators": ["C07", "FZ07"],
         "gen_obligations": ["index_sites_reviewed"],
         "thorough_seeds": 2,
@@ -268,7 +271,7 @@ PROPS = {
             "note": "'Every handler allocates its result' is a regenerated fact: extract/writes.go (go/ssa) lists every byte store/copy/append in bscript/interpreter with the origin of the target slice, and the obligation handlers_write_only_fresh_buffers re-checks it on every run; the differential alias probes observe the same thing at run time. Trusted: Lean kernel + standard axioms, harness/generators/comparer, driver glue.",
         },
         "generators": ["C08"],
-        "gen_obligations": ["handlers_write_only_fresh_buffers", "write_review_current"],
+        "gen_obligations": ["handlers_write_only_fresh_buffers"],
         "witness": [("GoBT.Interp.WriteReview", "GoBT.Interp.WriteReview.offending")],
         "thorough_seeds": 1,
         "rule": "13 duplication patterns x ~95 value-changing operations x 11 (quick) / 15 operand shapes x 2 eras (quick: 1 in 3 sampled), SPLIT halves at every cut up to 4, 300/20000 random programs with a transaction context. Non-trivial = program that executed at least 2 instructions.",
